@@ -155,10 +155,29 @@ def c182(ctx):
             lk = P.call_points(f, r"Mutex.*::lock$")
             ctx.check(R, f, "notify-after-section", not P.order(f, lk, [pt]), "and after the critical section that retired the position",
                       "the notification does not follow the critical section", pt=pt)
-            cg = [x for x in K.guards(f, pt)]
-            ok = any(s["k"] == "bin" and s["op"] == "Gt" and ".waiting_for_available" in K.src_names(f, s["st"]["rv"]["a"]) for _bb, _lab, ss in cg for s in ss)
-            ctx.check(R, f, "notify-guard", ok, "sent when waiting_for_available > 0", "the free-slot notification is not conditioned on waiting_for_available > 0", pt=pt)
-        # every path of _unlink that has a waiter for a slot notifies: must-pass from the `>0` true edge is structural above
+        # whenever a linker is parked (waiting_for_available > 0) the unlink announces: from the true edge of every switch
+        # that tests exactly that comparison, every path to the return passes the notification.  Any further condition
+        # (`&& was_full`, `&& head moved`) opens a bypass: notify_one wakes one linker per call, a head advance can free
+        # several slots at once, and the remaining parked linkers are woken only by later unlinks.
+        tests = []
+        for b in P.switch_blocks(f):
+            srcs = P.switch_cond_sources(f, b.idx)
+            bins = [x for x in srcs if x["k"] == "bin"]
+            calls = [x for x in srcs if x["k"] == "call" and not P.TRANSPARENT.search(x["callee"])]
+            if len(bins) == 1 and not calls and bins[0]["op"] in ("Gt", "Ne", "Lt") and \
+                    (".waiting_for_available" in K.src_names(f, bins[0]["st"]["rv"]["a"]) or ".waiting_for_available" in K.src_names(f, bins[0]["st"]["rv"]["b"])):
+                consts = [x for x in srcs if x["k"] == "const" and "v" in x]
+                if all(x["v"] in (0, 1) for x in consts):
+                    negs = sum(1 for x in srcs if x["k"] == "un" and x["op"] == "Not")
+                    tests.append((b, "sw:0" if negs % 2 else "sw:1"))
+        ctx.floor(R, "_unlink tests waiting_for_available > 0", len(tests), 1)
+        for b, lab in tests:
+            starts = [(s_, 0) for l_, s_ in b.succs if l_ == lab or (lab == "sw:1" and l_ == "otherwise")]
+            q = P.reach(f, starts, P.return_points(f), avoid=set(no))
+            ctx.check(R, f, "announce-when-waiting", q is None, "whenever waiting_for_available > 0 the unlink notifies wait_waiter_available",
+                      "an unlink that finds a parked linker (waiting_for_available > 0) can return without notifying wait_waiter_available: "
+                      "notify_one wakes one linker per call and one head advance can free several slots, so the others stay parked on a ring that is never full again",
+                      pt=P.term_pt(f, b.idx), path=q)
     f = ctx.fn(R, WL + "WaitList::link")
     if f:
         w = ctx.calls(R, f, r"Condvar::wait$", arg_pred=K.recv_is_field("wait_waiter_available"), what="wait_waiter_available.wait")
@@ -171,6 +190,25 @@ def c182(ctx):
         held_at(ctx, R, f, ini, "initialize of the new position", lock="WaitList.state")
         for pt in tw:
             g = [x for x in K.compare_guards(f, pt) if x["op"] == "Le" and not x["holds"]]
+            # the comparison may live in a predicate helper (`while self.is_full(&state)`): a function whose result is that one comparison
+            for bb, lab, ss in K.guards(f, pt):
+                for s_ in ss:
+                    if s_["k"] != "call":
+                        continue
+                    for k_ in ctx.prog.targets(s_["t"]):
+                        h_ = ctx.prog.fns.get(k_)
+                        if h_ is None or h_.crate != "sync42":
+                            continue
+                        ds = P.defs(h_).of(0)
+                        if len(ds) == 1 and ds[0][1] == "assign" and ds[0][2]["rv"]["r"] == "bin" and ds[0][2]["rv"]["op"] == "Le":
+                            rv = ds[0][2]["rv"]
+                            fa = {x["f"] for x in P.value_slice(h_, rv["a"])[0] if x["k"] == "field"}
+                            fb = {x["f"] for x in P.value_slice(h_, rv["b"])[0] if x["k"] == "field"}
+                            if "head" in fa and "tail" in fb and "tail" not in fa:
+                                negs = sum(1 for x in ss if x["k"] == "un" and x["op"] == "Not")
+                                holds = (lab != "sw:0") != bool(negs % 2)
+                                if not holds:
+                                    g.append({"helper": h_.skey})
             ctx.check(R, f, "slot-free", bool(g), "a position is handed out only when head + len > tail", "a position can be handed out while the ring is full", pt=pt)
     f = ctx.fn(R, WL + "WaitList::notify_head")
     if f:
@@ -231,6 +269,19 @@ def c183(ctx):
             ctx.check(R, f, "evict-cond", bool(g), "while size > capacity", "eviction is not conditioned on size > capacity", pt=pt)
         ih = ctx.calls(R, f, LRU + r"insert_helper$")
         ctx.order_chain(R, f, [("insert_helper", ih), ("remove_lru", ev)])
+    # a use makes the entry the most recently used: every normal path of the two operations that touch an existing entry
+    # (insert of a present key, lookup hit) and of the insertion of a new one puts the node at the head of the recency list
+    for name in ("insert_helper", "lookup"):
+        f = ctx.fn(R, LRU + name)
+        if not f:
+            continue
+        front = P.call_points(f, LRU + r"move_lru_to_front$") + P.field_writes(f, r"lru::State$", "head")
+        ctx.floor(R, "%s: sites that put a node at the head" % name, len(front), 1)
+        q = P.must_pass(f, front)
+        ctx.check(R, f, "use-refreshes-recency", q is None, "every path of %s that touches an entry makes it the most recently used" % name,
+                  "%s can touch an entry without moving it to the head of the recency list: the entry just written or read stays "
+                  "the eviction candidate (an overwrite that grows the cache past its capacity then evicts the entry it has just written)" % name,
+                  pt=q[-1][1] if q and isinstance(q[-1], tuple) else None, path=q)
     f = ctx.fn(R, LRU + "insert_no_evict")
     if f:
         reach = ctx.prog.reach([f.key], crates={"sync42"})
